@@ -1,6 +1,7 @@
 import ColoVerif.Gen.Api
 import ColoVerif.Proofs.BusyLemmas
 import ColoVerif.Model.LegacyBusy
+import ColoVerif.Properties.C01
 /-
 C10 — busy-circuit protocol and exception safety of placement calls.
 
@@ -35,51 +36,98 @@ theorem busy_refuses :
   have key : ∀ f ∈ Api.setters, f.name ∈ structuralSetters → guardFirst f.body = true := by decide
   exact exec_guardFirst noCall env f.body st (key f hf hn) hu
 
-/-- During a placement call the flag stays set across any sequence of callbacks, each running any
-setters with any arguments (no setter touches the flag): `busy_refuses` therefore applies inside
-every callback of every stage. -/
+/-- While a placement call is in progress the flag stays set: across any trace of callbacks, each
+running any setters with any arguments (no setter touches the flag) and any *nested placement calls*
+on the same circuit, to any depth, however they end (each placement call puts the flag back to what
+it was when it started).  Traces are prefix-closed, so this is the state at every point of every
+callback of every stage, and `busy_refuses` applies there. -/
 theorem busy_in_every_callback :
-    ∀ (cbs : List Callback) (st : St), st.inUse = true → (runCallbacks Api.setters cbs st).st.inUse = true := by
-  intro cbs st hu
-  have key : ∀ f ∈ Api.setters, flagFree f.body = true := by decide
-  rw [runCallbacks_flag Api.setters key cbs st, hu]
+    ∀ (t : Tr) (st : St), st.inUse = true → (runTr Api.setters Api.placementCalls t st).st.inUse = true := by
+  intro t st hu
+  have k1 : ∀ f ∈ Api.setters, flagFree f.body = true := by decide
+  have k2 : ∀ f ∈ Api.placementCalls, restoringFirst f.body = true := by decide
+  rw [runTr_flag Api.setters Api.placementCalls k1 k2 t st, hu]
 
-/-- After a placement call has ended — by return, by an exception of a callback at any index, by an
-exception of the stage at any point (infeasible legalization, rejected parameters, …) — the circuit
-is no longer in use.  For every stage trace and every initial state. -/
+/-- A placement call is: run the stage with the flag set, then give the flag the value it had when
+the call started — whether the stage returned or threw.  (So the stage of an outermost call, and of
+a call nested in a callback alike, runs busy; with `busy_in_every_callback` it is busy throughout.) -/
+theorem placement_runs_stage_busy :
+    ∀ f ∈ Api.placementCalls, ∀ (t : Tr) (st : St),
+      execPlacement Api.setters Api.placementCalls f.body t st =
+        (runTr Api.setters Api.placementCalls t { st with inUse := true }).restore st.inUse := by
+  intro f hf t st
+  have key : ∀ f ∈ Api.placementCalls, restoringCall f.body = true := by decide
+  obtain ⟨n, hn⟩ := exec_restoringCall (fun _ s => runTr Api.setters Api.placementCalls t s) emptyEnv f.body (key f hf) st
+  exact hn
+
+/-- After the OUTERMOST placement call (one that started on a circuit not in use) has ended — by
+return, by an exception of a callback at any index, by an exception of the stage at any point
+(infeasible legalization, rejected parameters, …), after any nested calls — the circuit is no longer
+in use.  For every stage trace and every initial state that is not in use. -/
 theorem busy_released :
-    ∀ f ∈ Api.placementCalls, ∀ (sg : Stage) (st : St),
-      (execPlacement Api.setters f.body sg st).st.inUse = false := by
-  intro f hf sg st
+    ∀ f ∈ Api.placementCalls, ∀ (t : Tr) (st : St), st.inUse = false →
+      (execPlacement Api.setters Api.placementCalls f.body t st).st.inUse = false := by
+  intro f hf t st h0
   have key : ∀ f ∈ Api.placementCalls, guardedFirst f.body = true := by decide
-  exact exec_guardedFirst _ emptyEnv f.body st (key f hf)
+  exact exec_guardedFirst _ emptyEnv f.body st (key f hf) h0
+
+/-- A placement call made while another one is in progress (from a callback) does not release the
+circuit when it ends, by return or by exception: the flag is what it was. -/
+theorem nested_call_keeps_busy :
+    ∀ f ∈ Api.placementCalls, ∀ (t : Tr) (st : St),
+      (execPlacement Api.setters Api.placementCalls f.body t st).st.inUse = st.inUse := by
+  intro f hf t st
+  have key : ∀ f ∈ Api.placementCalls, restoringFirst f.body = true := by decide
+  exact exec_restoringFirst _ emptyEnv f.body st (key f hf)
 
 /-- … and the call itself is refused to nobody: it ends by return or by the exception, it is never
-stuck (an exception thrown inside propagates to the caller). -/
+stuck (an exception thrown inside propagates to the caller): if every way to the end of the stage
+finds it throwing, the call does not return normally. -/
 theorem exception_propagates :
-    ∀ f ∈ Api.placementCalls, ∀ (cbs : List Callback) (st : St),
-      (execPlacement Api.setters f.body ⟨cbs, true⟩ st).out ≠ .normal := by
-  intro f hf cbs st
+    ∀ f ∈ Api.placementCalls, ∀ (t : Tr) (st : St), t.endsThrowing = true →
+      (execPlacement Api.setters Api.placementCalls f.body t st).out ≠ .normal := by
+  intro f hf t st ht
   have key : ∀ f ∈ Api.placementCalls, guardedCall f.body = true := by decide
-  exact execPlacement_propagates Api.setters f.body (key f hf) cbs st
+  exact execPlacement_propagates Api.setters Api.placementCalls f.body (key f hf) t ht st
 
-/-- A placement call whose callbacks invoke (any) translated setters ends by return or by an exception:
-no path of the translated API aborts or gets stuck (no `assert` is left in a setter). -/
+/-- A placement call whose callbacks invoke (any) translated setters and placement calls ends by return
+or by an exception: no path of the translated API aborts or gets stuck (no `assert` is left in a setter). -/
 theorem placement_returns_or_throws :
-    ∀ f ∈ Api.placementCalls, ∀ (sg : Stage) (st : St), (∀ cb ∈ sg.cbs, cb.known Api.setters) →
-      (execPlacement Api.setters f.body sg st).out = .normal ∨ (execPlacement Api.setters f.body sg st).out = .thrown := by
-  intro f hf sg st hk
+    ∀ f ∈ Api.placementCalls, ∀ (t : Tr) (st : St), t.known Api.setters Api.placementCalls = true →
+      (execPlacement Api.setters Api.placementCalls f.body t st).out = .normal ∨
+      (execPlacement Api.setters Api.placementCalls f.body t st).out = .thrown := by
+  intro f hf t st hk
   have k1 : ∀ f ∈ Api.placementCalls, guardedCall f.body = true := by decide
   have k2 : ∀ f ∈ Api.setters, assertFree f.body = true := by decide
-  exact execPlacement_out Api.setters k2 f.body (k1 f hf) sg st hk
+  exact execPlacement_out Api.setters Api.placementCalls k2 k1 f.body (k1 f hf) t st hk
 
-/-! Non-vacuity: a concrete trace.  The callback calls `setRows` (refused, nothing written) and
-then throws; the call ends with the exception and the flag cleared. -/
+/-- **Third clause: a legalization that failed has left the placement exactly as it was** — restated
+from C01 (`C01.failed_legalize_unchanged`), over the legalization model that `drv_C01` executes
+against `Circuit::legalize`: `legalizeInPlace` is the call as the C++ sees it (the circuit object after
+the call and the exception, if any).  If the call fails, for whatever reason (rejected parameters,
+Tetris/Abacus failure, a cell that could not be placed), the circuit after the call is the circuit
+before it — every cell position and orientation, and everything else; the error was raised before
+`exportPlacement`, the only writer.  For every circuit, all parameters, every rounding of the ordering key. -/
+theorem failed_legalize_leaves_placement (rnd : Rat → Rat) (p : Legalize.Params) (c : ColoVerif.Circuit) (e : Legalize.Err)
+    (h : Legalize.legalizeWith rnd p c = .error e) :
+    (C01.legalizeInPlace rnd p c).1 = c ∧ (C01.legalizeInPlace rnd p c).2 = some e ∧
+    ((p.check = false ∧ e = .params) ∨ (p.check = true ∧ Legalize.run rnd p (Legalize.fromCircuit c) = .error e)) := by
+  obtain ⟨h1, h2⟩ := C01.failed_legalize_unchanged rnd p c e h
+  exact ⟨by rw [h1], by rw [h1], h2⟩
+
+/-! Non-vacuity: a concrete trace.  The callback calls `setRows` (refused, nothing written), then
+`legalize` on the same circuit (its stage throws: the nested call ends by the exception, circuit
+still in use), `setRows` again (still refused) and then throws; the outer call ends with the
+exception and the flag cleared. -/
 example :
-    execPlacement Api.setters [.scopeGuard, .call "GlobalPlacer::place"]
-      ⟨[⟨[⟨"setRows", ⟨3, 0, [⟨2, [], 0⟩]⟩⟩], true⟩], false⟩ ⟨false, []⟩
-      = ⟨.thrown, ⟨false, []⟩, ["set setRows throw:runtime_error w=0"]⟩ := by decide
+    ∀ f ∈ Api.placementCalls, f.name = "placeDetailed" →
+    execPlacement Api.setters Api.placementCalls f.body
+      (.setter ⟨"setRows", ⟨3, 0, [⟨2, [], 0⟩]⟩⟩ (.nested "legalize" (.done true)
+        (.setter ⟨"setRows", ⟨3, 0, [⟨2, [], 0⟩]⟩⟩ (.cbEnd true (.done false))))) ⟨false, []⟩
+      = ⟨.thrown, ⟨false, []⟩, ["set setRows throw:runtime_error w=0", "end throw inuse=1",
+                                 "set setRows throw:runtime_error w=0"]⟩ := by decide
 
 example : ∃ f ∈ Api.setters, f.name ∈ structuralSetters := by decide
+example : (Tr.cbEnd true (.done false)).endsThrowing = true := by decide
 
 end ColoVerif.C10
